@@ -35,6 +35,7 @@ structure Rng where
 inductive P where
   | cmp (op : String) (a b : Sc)          -- = != < <= > >=
   | isNull (a : Sc) (negated : Bool)      -- a = NULL / a != NULL
+  | flag (name : String)                  -- a bare boolean column (NULL = unknown)
   | inSet (a : Sc) (lits : List V) (rngs : List Rng) (notIn : Bool)
   | not (p : P) | and (p q : P) | or (p q : P)
   deriving Repr
@@ -87,6 +88,10 @@ def member (rangeTest : Int → Rng → Bool) (v : V) (lits : List V) (rngs : Li
 def evalWith (rangeTest : Int → Rng → Bool) (row : Row) : P → K3
   | .cmp op a b => cmpV op (sc row a) (sc row b)
   | .isNull a negated => let isn := (sc row a == .null); ofBool (if negated then !isn else isn)
+  | .flag n => match row n with
+      | .int 0 => .ff
+      | .int _ => .tt
+      | _ => .nn
   | .inSet a lits rngs notIn =>
       let r := member rangeTest (sc row a) lits rngs
       if notIn then not3 r else r
